@@ -88,6 +88,19 @@ def install(w):
             parts["apart"] = apart(s, c, except_)
         return {"others-good:" + k: smt.FA([c], z3.Implies(z3.And(*hyp), v), patterns=[kind(c)]) for k, v in parts.items()}
 
+    def pairwise_apart(s0, s, except_=None):
+        """containers (child list, the three dicts) of two different nodes allocated by this call are different objects"""
+        c1, c2 = z3.Ints("pw_c1 pw_c2")
+        hyp = [new_node(s0, s, c1), new_node(s0, s, c2), c1 != c2]
+        if except_ is not None:
+            hyp += [c1 != except_, c2 != except_]
+        return smt.FA([c1, c2], z3.Implies(z3.And(*hyp), apart(s, c1, c2)), patterns=[z3.MultiPattern(kind(c1), kind(c2))])
+
+    def own_dicts_distinct(s0, s):
+        c = z3.Int("od_c")
+        a, n, e = (s.fr(f, c) for f in DICTS)
+        return smt.FA([c], z3.Implies(new_node(s0, s, c), z3.And(a != n, a != e, n != e)), patterns=[kind(c)])
+
     def store_delta(s0, s):
         k = z3.Const("sd_k", Val)
         st0, st1 = store_map(s0), store_map(s)
@@ -104,6 +117,8 @@ def install(w):
         return {"top:fresh-root": z3.And(Val.is_ref(result), new_node(s0, s, r), ORIG(r) == self),
                 **{"top:every-new-node-mirrors-its-origin/" + k.split(":")[1]: v for k, v in all_good_parts(s0, s, self).items()},
                 "top:registry-delta": store_delta(s0, s),
+                "top:containers-of-different-copies-are-different-objects": pairwise_apart(s0, s),
+                "top:the-three-dicts-of-a-copy-are-different-objects": own_dicts_distinct(s0, s),
                 "root-not-a-child": root_not_child(s0, s, r),
                 "top": s.top >= s0.top}
 
@@ -142,6 +157,7 @@ def install(w):
         return {"bound": v._k <= s0.nkids(self), "copy-new": z3.And(new_node(s0, s, cp), ORIG(cp) == self),
                 **all_good_parts(s0, s, self, except_=cp),
                 "copy-partial": good(s0, s, cp, partial_children=v._k),
+                "pairwise-apart": pairwise_apart(s0, s, except_=cp), "own-dicts-distinct": own_dicts_distinct(s0, s),
                 "registry-delta": store_delta(s0, s), "root-not-a-child": root_not_child(s0, s, cp), "top": s.top >= s0.top}
 
     def child_axioms(s0, s, v):
